@@ -155,7 +155,10 @@ def split_decodable(data):
         try:
             sd, _rest = H.SOMEIPSDHeader.parse(payload)
             sd.resolve_options()
-        except (H.ParseError, UnicodeError):
+        except Exception:  # noqa: BLE001
+            # not decodable - by a parse error, or (on a changed tree) by whatever else the decoder now lets escape: that the
+            # ENDPOINT raised is judged by the caller (`err`), that the DECODER raises something foreign by part (1) of this
+            # check; the reference run must not fall over here
             continue
         if not sd.flag_unicast:
             stripped = H.SOMEIPSDHeader(entries=(), flag_reboot=sd.flag_reboot, flag_unicast=False, flags_unknown=sd.flags_unknown)
